@@ -106,7 +106,7 @@ func fuzzOne(kind, curve string, data []byte) ev.Outcome {
 		}
 		fuzzCtx[key] = ctx
 	}
-	out := checkMutant(ctx, kind, data, nil, false)
+	out := checkMutant(ctx, kind, data, nil, false, false)
 	sum := sha256.Sum256(data)
 	out.Key = fmt.Sprintf("%s/%s/%x", kind, curve, sum[:12])
 	return out
